@@ -73,7 +73,8 @@ type mfObs struct {
 	Queries []mfQuery   `json:"queries,omitempty"`
 }
 
-var goodDirs = []string{"a1", "a1x", "A1", "pkg", "Pkg", "pkg2", "pkg-0", "upper", "9f86d081884c7d65", "x_y", "UPPER", "with space", "a.b", "...", "a\\b"}
+var goodDirs = []string{"a1", "a1x", "A1", "pkg", "Pkg", "pkg2", "pkg-0", "upper", "9f86d081884c7d65", "x_y", "UPPER", "with space", "a.b", "...", "a\\b",
+	" ..", ".. ", "\t..\n", " . ", " a1", "a1 "} // padded names are names like any other: never trimmed
 var badDirs = []string{"", ".", "..", "a/b", "/abs", "a/..", "x/", "../up", "a//b", "./a", "a/./b"}
 
 func genPkgOnly(rng *Rng) string {
